@@ -199,14 +199,14 @@ pub fn run(g: &mut Global) {
     let seedx = g.seed;
     g.exhaustive(
         "extreme_stress",
-        16 * 4 * 2 * 96,
+        16 * 6 * 2 * 96,
         &move |i| {
             let phi = (i % 96) as usize;
             let r = i / 96;
             let slow = r % 2 == 1;
             let r = r / 2;
-            let pattern = (r % 4) as usize;
-            let n = XP[(r / 4) as usize];
+            let pattern = (r % 6) as usize;
+            let n = XP[(r / 6) as usize];
             let phase = if n <= 96 { phi % n } else if phi == 0 { 0 } else if phi == 1 { n - 1 } else { (phi * n) / 96 };
             let vals = crate::hist::extreme_stress(n, phase, pattern, seedx ^ i.wrapping_mul(0x9E3779B97F4A7C15));
             let cfg = if slow { Cfg { kind: Kind::SlowStoch, p: vec![n, 3], m: X(0.0) } } else { Cfg { kind: Kind::FastStoch, p: vec![n], m: X(0.0) } };
